@@ -122,6 +122,15 @@ CHECKS = {
         ),
         design_ref="DESIGN.md §4 C12",
     ),
+    "C02": dict(
+        technique="Lean 4 proof (window/reversal/chain-order theorems over the Roland model) + whole-image correspondence: independent Roland S-7xx writer -> real export/ls vs Lean parser model vs logical oracle",
+        text=(
+            "Machine-checked: C02_window (a window inside the written words is exported as exactly those words, whatever follows them; reversed word-wise for the reverse modes), C02_mode_window (modes 1,3 end at the release end, the others at the sustain end, exactly 5,6 reversed), C02_chain_content / C02_cluster_read (content = clusters in chain order, each read whole), C02_sample (composition on the model), C02_file_clusters with C07_getPath_sound (the chain is the FAT's), reverseWords_enc / involutive. "
+            "Tie: gen_roland writes images from logical discs (7 loop modes, 6 rates, FAT version flag 1/2, contiguous/reversed/random/head-not-lowest chains, cluster_top 0-2, windows ending on k*9216, shared and orphan performances); the real tool's export and ls at every node are compared with the Lean model of the whole parser (ID area, FAT decode, directories, pointer lists, naming, WAV) and with PCM/rate computed from the logical disc. "
+            "Modelled, not verified: construct's struct parsing is represented by explicit offsets (checked by the correspondence), numpy unique/reshape by sort+dedupe / word reversal."
+        ),
+        design_ref="DESIGN.md §4 C02",
+    ),
     "C14": dict(
         technique="Lean 4 proof (replacing one 24-byte table entry leaves every other entry's parse unchanged) + byte-sweep damage correspondence",
         text=(
